@@ -6,7 +6,38 @@ import subprocess
 
 VERIF = os.path.dirname(os.path.dirname(os.path.abspath(__file__)))
 
+PIPE_NOTE = ("Trusted: TLC; tools/netgen.py (recorded wiring -> constants); the stage programs of spec/Pipeline.tla (one TLA+ "
+             "step per blocking operation of helper/*.go), bound to the code by comparing every explored instance with a real "
+             "execution (counts, hang / leak, parked goroutines) and by the C16 probes; the ample-set reduction, cross-checked "
+             "against all interleavings on every network that fits. Bounds: periods <= 5 plus the default configuration, "
+             "n <= 2w+2, capacities <= 2 (P+1 in the thorough tier).")
+
 CHECKS = {
+    "C02": dict(
+        category="model_checking",
+        text="For every indicator (68 catalogue entries = all 61 Compute methods plus constructor variants) x configurations x "
+             "input capacities, the process network recorded from the real code through the verif hooks is model checked by TLC "
+             "(spec/Pipeline.tla) with all equal input lengths 0..2w+2 as initial states; CountOK, SameLen and Aligned (provenance "
+             "tokens: k-th value depends on input position k+w) are evaluated in every terminal state. Every instance is also "
+             "executed on the real code and real counts are compared with the property's arithmetic and with the model; a "
+             "model-reported misalignment is confirmed by perturbation runs before it is reported.",
+        design_ref="DESIGN.md 2.1, 3, 5 (C02)", note=PIPE_NOTE,
+        technique="TLC model checking of process networks recorded from the code + replay of every instance on the real code",
+        engine="tlc"),
+    "C03": dict(
+        category="model_checking",
+        text="Every catalogued pipeline (indicators, strategies, And/Or/Majority/Split compounds, decorators: 115 entries) x "
+             "configurations x input capacities x length vectors (equal 0..2w+2; one input shorter / empty): the recorded network is "
+             "model checked by TLC for NoPanic, SingleReader and termination with every process done (no deadlock, no leaked "
+             "goroutine), under the reduced next-state relation for all and under ALL interleavings for the networks that fit, where "
+             "the terminal state must be unique (determinacy) and equal to the reduced run's; EMA/RMA/SMMA units verified in "
+             "isolation under all interleavings. The same instances run on the real code in timer-free child processes: hangs are "
+             "reported by the Go runtime's deadlock detector, leaks by a goroutine census; thorough tier adds GOMAXPROCS x pacing "
+             "sweeps with bit-for-bit output comparison.",
+        design_ref="DESIGN.md 2.1, 3.4, 5 (C03), 8", note=PIPE_NOTE,
+        technique="TLC model checking (all interleavings / ample-set reduction) of recorded process networks + real executions "
+                  "under the Go runtime deadlock detector",
+        engine="tlc"),
     "C17": dict(
         category="model_checking",
         text="TLC checks exhaustively (finite state space, all histories) that the implementation-shaped Ring and Bst of "
